@@ -61,7 +61,8 @@ def locked_build(ctx, mod):
 
 
 def audit(ctx, mod):
-    bad = lib.audit_sources()
+    ctx.dep_files = lib.coq_deps(f"props/{ctx.prop}.v")
+    bad = lib.audit_sources(ctx.dep_files if not os.environ.get("VERIF_AUDIT_ALL") else None)
     if bad:
         ctx.break_("audit:forbidden-vernacular", "\n".join(bad))
     if any(b["what"].startswith(("proof:", "model-build")) for b in ctx.broken):
@@ -113,7 +114,7 @@ def write_replay(ctx, payload):
 
 
 def evidence(ctx, mod, violations):
-    proof_files = list(getattr(mod, "PROOF_FILES", [])) + [f"props/{ctx.prop}.v"]
+    proof_files = [f for f in getattr(ctx, "dep_files", []) if f.startswith(("proofs/", "props/"))] or [f"props/{ctx.prop}.v"]
     obligations = lib.count_lemmas(proof_files)
     built = not any(b["what"].startswith(("proof:", "model-build", "assumptions", "audit")) for b in ctx.broken)
     if built:
